@@ -13,3 +13,98 @@ package keeper
 //@                          ==> totalPower >= types.idxPower(q))
 //@ loop 0: invariant 0 <= itpos(iterator) && itpos(iterator) <= itlen(iterator)
 //@ loop 0: invariant forall j :: 0 <= j && j < itpos(iterator) ==> !activeVault(Store_restake, str(itval(iterator, j)))
+
+// ---- C16: staked power, staking and unstaking ------------------------------------------------------------
+//@ spec stakeAt(s Store, a Addr) types.Stake = dec(types.Stake, s[types.StakeStoreKey(a)])
+//@ spec stakeCoins(s Store, a Addr) sdk.Coins = has(s, types.StakeStoreKey(a)) ? stakeAt(s, a).Coins : ext("NewCoins")
+//@ spec rparams(s Store) types.Params = has(s, types.ParamsKey) ? dec(types.Params, s[types.ParamsKey]) : zero(types.Params)
+// power of a coin set: the sum of its amounts in the allowed denoms
+//@ spec dsum(c sdk.Coins, ds []string, n Int) Int = n <= 0 ? 0 : dsum(c, ds, n - 1) + ext("Coins.AmountOf", c, ds[n-1])
+//@ spec stakedPow(s Store, a Addr) Int = dsum(stakeCoins(s, a), rparams(s).AllowedDenoms, len(rparams(s).AllowedDenoms))
+// store invariant: a stake record is filed under its own staker address
+//@ spec wfStake(s Store, a Addr) Bool = has(s, types.StakeStoreKey(a)) ==> (bech32ok(stakeAt(s, a).StakerAddress) && bech32addr(stakeAt(s, a).StakerAddress) == a)
+// "every lock this account holds in a still-active vault is covered by the given power"
+//@ spec locksCovered(s Store, a Addr, p Int) Bool = forall q Bz :: (has(s, q) && hasprefix(q, types.LocksByPowerIndexKey(a)) && activeVault(s, str(s[q]))) ==> p >= types.idxPower(q)
+
+//@ func (k Keeper) GetStakedPower
+//@ ensures result == stakedPow(Store_restake, stakerAddr)
+//@ loop 0: invariant power == dsum(stake.Coins, allowedDenoms, #i)
+
+// Staking moves exactly the staked coins from the staker to the module account and adds exactly them to the
+// staker's record; nothing else in the store changes.
+//@ func (k msgServer) Stake
+//@ modifies Store_restake, Bank
+//@ requires bech32ok(msg.StakerAddress) ==> wfStake(Store_restake, bech32addr(msg.StakerAddress))
+//@ ensures err == nil ==> bech32ok(msg.StakerAddress) && Bank == bankA2M(old(Bank), bech32addr(msg.StakerAddress), types.ModuleName, msg.Coins)
+//@ ensures err == nil ==> stakeAt(Store_restake, bech32addr(msg.StakerAddress)).Coins == ext("Coins.Add", old(stakeCoins(Store_restake, bech32addr(msg.StakerAddress))), msg.Coins)
+//@ ensures err == nil ==> (forall q Bz :: q != types.StakeStoreKey(bech32addr(msg.StakerAddress)) ==> Store_restake[q] == old(Store_restake)[q])
+//@ ensures err != nil ==> Store_restake == old(Store_restake) && Bank == old(Bank)
+//@ loop 0: invariant true
+//@ loop 1: invariant true
+
+// Unstaking pays out exactly the requested coins, only when the record covers them, reduces the record by
+// exactly them (deleting it at zero), and only when the account's REMAINING power (staked after the
+// subtraction + bonded delegations) still covers every lock it holds in an active vault.
+//@ func (k msgServer) Unstake
+//@ modifies Store_restake, Bank
+//@ requires bech32ok(msg.StakerAddress) ==> wfStake(Store_restake, bech32addr(msg.StakerAddress))
+//@ ensures err == nil ==> bech32ok(msg.StakerAddress) && Bank == bankM2A(old(Bank), types.ModuleName, bech32addr(msg.StakerAddress), msg.Coins)
+//@ ensures err == nil ==> !ext("Coins.SafeSub#1", old(stakeCoins(Store_restake, bech32addr(msg.StakerAddress))), msg.Coins)
+//@ ensures err == nil ==> (let a = bech32addr(msg.StakerAddress) in let nc = ext("Coins.SafeSub", old(stakeCoins(Store_restake, a)), msg.Coins) in
+//@        (ext("Coins.IsZero", nc) ==> !has(Store_restake, types.StakeStoreKey(a))) && (!ext("Coins.IsZero", nc) ==> has(Store_restake, types.StakeStoreKey(a)) && stakeAt(Store_restake, a).Coins == nc))
+//@ ensures err == nil ==> locksCovered(Store_restake, bech32addr(msg.StakerAddress), stakedPow(Store_restake, bech32addr(msg.StakerAddress)) + types.delegatorBonded(Other, bech32addr(msg.StakerAddress)))
+//@ ensures bech32ok(msg.StakerAddress) ==> (forall q Bz :: q != types.StakeStoreKey(bech32addr(msg.StakerAddress)) ==> Store_restake[q] == old(Store_restake)[q])
+
+// ---- C16: staking hooks -------------------------------------------------------------------------------------
+// A delegation change is accepted only if staked power + bonded delegations still covers every active lock.
+//@ func (h Hooks) AfterDelegationModified
+//@ ensures err == nil ==> locksCovered(Store_restake, delAddr, stakedPow(Store_restake, delAddr) + types.delegatorBonded(Other, delAddr))
+
+// Removing a delegation is accepted only if the power that REMAINS (staked + bonded delegations - the tokens of the
+// delegation being removed) still covers every active lock.
+//@ func (h Hooks) BeforeDelegationRemoved
+//@ ensures err == nil ==> locksCovered(Store_restake, delAddr, stakedPow(Store_restake, delAddr) + types.delegatorBonded(Other, delAddr)
+//@           - ext("LegacyDec.RoundInt", ext("Validator.TokensFromSharesTruncated", types.validatorOf(Other, valAddr), types.delegationOf(Other, delAddr, valAddr).Shares)))
+
+// ---- C16: locks and their by-power index -----------------------------------------------------------------
+//@ spec lockAt(s Store, a Addr, key Str) types.Lock = dec(types.Lock, s[types.LockStoreKey(a, key)])
+// store invariant: a lock is filed under its own staker address and vault key
+//@ spec wfLock(s Store, a Addr, key Str) Bool = has(s, types.LockStoreKey(a, key)) ==> (lockAt(s, a, key).Key == key && bech32ok(lockAt(s, a, key).StakerAddress) && bech32addr(lockAt(s, a, key).StakerAddress) == a)
+
+// Writing a lock first removes the previous lock of the same (staker, vault) TOGETHER WITH its by-power index
+// entry, then writes the record and exactly one index entry (value = vault key) for the new power.
+//@ func (k Keeper) SetLock
+//@ modifies Store_restake
+//@ requires bech32ok(lock.StakerAddress) && wfLock(Store_restake, bech32addr(lock.StakerAddress), lock.Key)
+//@ ensures (let a = bech32addr(lock.StakerAddress) in
+//@     Store_restake == store(store(
+//@          (old(has(Store_restake, types.LockStoreKey(a, lock.Key)))
+//@             ? remove(remove(old(Store_restake), types.LockStoreKey(a, lock.Key)), types.LockByPowerIndexKey(old(lockAt(Store_restake, a, lock.Key))))
+//@             : old(Store_restake)),
+//@          types.LockStoreKey(a, lock.Key), enc(lock)),
+//@          types.LockByPowerIndexKey(lock), bytes(lock.Key)))
+
+// Locking power is refused for liquid stakers, for powers outside uint64, for powers above the account's total
+// power (staked + bonded delegations) and for inactive vaults; an accepted lock is recorded with exactly that power.
+//@ func (k Keeper) SetLockedPower
+//@ modifies Store_restake
+//@ requires wfLock(Store_restake, stakerAddr, key)
+//@ ensures err == nil ==> len(stakerAddr) != 32 && 0 <= power && power <= MaxUint64
+//@ ensures err == nil ==> power <= stakedPow(old(Store_restake), stakerAddr) + types.delegatorBonded(Other, stakerAddr)
+//@ ensures err == nil ==> activeVault(Store_restake, key)
+//@ ensures err == nil ==> has(Store_restake, types.LockStoreKey(stakerAddr, key)) && lockAt(Store_restake, stakerAddr, key).Power == power && lockAt(Store_restake, stakerAddr, key).Key == key
+
+// ---- C16: genesis --------------------------------------------------------------------------------------------
+// sum of the coins of the first n genesis stakes
+//@ spec coinsSum(st []types.Stake, n Int) sdk.Coins = n <= 0 ? zero("sdk.Coins") : ext("Coins.Add", coinsSum(st, n - 1), st[n-1].Coins)
+// Genesis is accepted (no panic) only if the restake module account holds exactly the sum of all recorded stakes:
+// recorded stakes are fully backed from the first block.
+//@ func (k Keeper) InitGenesis
+//@ may_panic
+//@ modifies Store_restake, Other
+//@ requires forall j :: 0 <= j && j < len(data.Locks) ==> bech32ok(data.Locks[j].StakerAddress)
+//@ requires forall a Addr, key Str :: wfLock(Store_restake, a, key)
+//@ ensures ext("Coins.Equal", types.balancesOf(Bank, ext("ModuleAccountI.GetAddress", types.modAcc(old(Other), types.ModuleName))), coinsSum(data.Stakes, len(data.Stakes)))
+//@ loop 0: invariant forall a Addr, key Str :: wfLock(Store_restake, a, key)
+//@ loop 1: invariant forall a Addr, key Str :: wfLock(Store_restake, a, key)
+//@ loop 2: invariant totalStakes == coinsSum(data.Stakes, #i)
